@@ -228,3 +228,56 @@ def object_ids(root) -> set:
         elif e[0] == "block":
             ids.update(e[2])
     return ids
+
+
+def op_diff(a, b) -> str:
+    """Classify the first difference between two canonical forms at op granularity:
+    'attrs:-k' (key k lost), 'attrs:+k' (key appeared), 'props:~k' (value changed), 'operands',
+    'result_types', 'successors', 'name', 'op_count', 'block_args', 'block_count', 'region_count'."""
+    if a == b:
+        return ""
+    tag = a[0] if isinstance(a, tuple) and a else None
+    if tag != (b[0] if isinstance(b, tuple) and b else None):
+        return "shape"
+    if tag == "op":
+        if a[1] != b[1]:
+            return "name"
+        for idx, nm in ((2, "operands"), (3, "result_types"), (6, "successors")):
+            if a[idx] != b[idx]:
+                return nm
+        for idx, nm in ((4, "attrs"), (5, "props")):
+            if a[idx] != b[idx]:
+                da, db = dict(a[idx]), dict(b[idx])
+                for k in sorted(set(da) | set(db)):
+                    if k not in db:
+                        return f"{nm}:-{k}"
+                    if k not in da:
+                        return f"{nm}:+{k}"
+                    if da[k] != db[k]:
+                        return f"{nm}:~{k}"
+        if len(a[7]) != len(b[7]):
+            return "region_count"
+        for x, y in zip(a[7], b[7]):
+            d = op_diff(x, y)
+            if d:
+                return d
+        return "?"
+    if tag == "region":
+        if len(a[1]) != len(b[1]):
+            return "block_count"
+        for x, y in zip(a[1], b[1]):
+            d = op_diff(x, y)
+            if d:
+                return d
+        return "?"
+    if tag == "block":
+        if a[1] != b[1]:
+            return "block_args"
+        if len(a[2]) != len(b[2]):
+            return "op_count"
+        for x, y in zip(a[2], b[2]):
+            d = op_diff(x, y)
+            if d:
+                return x[1] + "/" + d if False else d
+        return "?"
+    return "?"
